@@ -31,6 +31,7 @@ import JF.Props.ModeDiscipline
 import JF.Gen.Wirings
 import JF.Gen.WiringsSound
 import JF.Gen.ModeWirings
+import JF.Props.Footprints2
 namespace JF.Footprints3
 open JF JF.Act JF.CW3 JF.Composite JF.C12
 
@@ -177,5 +178,318 @@ theorem shipped_in_world : (allModeCfgs.filter Supported3).length = allModeCfgs.
 /-- a cell tagger without internal-state label is outside the world -/
 theorem unsupported_example : Supported3 ⟨⟨"x", ["occ"], [⟨"t", .cellVeto, "", .cellVeto, [0], [0], [], [], 1, none⟩]⟩, [.leafUnit]⟩ = false := by
   decide
+
+
+/-! ## non-vacuity: a run of `dipoles/cell_bounded.ini` with two dipoles (exact reading)
+
+The two dipoles of `JF/Props/C12.lean` in the unit square (`exC0`: centre (1/2, 1/2); `exC1`: centre (1/10, 1/5)), ONE occupancy on
+the root level (`cell_level = 1`) over a 4 × 4 grid with one layer of nearby cells, `maximum_number_occupants = 1`.  The run: start of
+run (point mass (0, 0) starts, speed 1; dipole 0 becomes the active unit of the occupancy, cell (2, 2)) — a sampling event at time
+1/8 (premise: the centre of dipole 0, at x = 9/16, is still in its recorded cell) — the cell-boundary event of dipole 0 at time 1/2
+(its centre reaches x = 3/4: recorded cell (3, 2)) — an accepted `harmonic` event (lifting (0, 0) → (0, 1) inside the molecule: same
+active unit on the cell level) — the end of chain (point mass (1, 0) moves on: dipole 0 goes back into cell (3, 2), dipole 1 is taken
+out of cell (0, 0)). -/
+
+namespace Example
+
+abbrev mw : ModeWiring := mcfg_dipoles_cell_bounded
+abbrev cfg : Wiring := cfg_dipoles_cell_bounded
+
+/-- the occupancy's environment: root level, 4 × 4 cells, index of cell (ix, iy) in `yield_cells()` order = ix + 4 iy -/
+def oe : OccEnv ℚ :=
+  { level := 1, grid := ⟨[4, 4], 1⟩
+    cellOf := fun p => (Ops.rat.toInt (p.getD 0 0 * 4)).toNat + 4 * (Ops.rat.toInt (p.getD 1 0 * 4)).toNat
+    relevant := fun _ => true }
+
+def env : Env ℚ :=
+  { base := Footprints2.envOf exL 2 "factor_set_dipoles_dipole.txt"
+      ["CoulombCellBounding", "CoulombNearby", "CoulombSurplus", "CellBoundary", "Harmonic", "Repulsive", "Sampling", "EndOfChain",
+       "EndOfRun", "StartOfRun"]
+    occs := [oe] }
+
+theorem box : BoxOK env.base.d env.base.L := exBox
+
+theorem ex_uniform : CW2.Uniform env.base.nPer [exC0, exC1] := by
+  intro c hc
+  simp only [List.mem_cons, List.not_mem_nil, or_false] at hc
+  rcases hc with rfl | rfl <;> rfl
+
+/-- `SingleActiveCellOccupancy.initialize`: dipole 0 in cell (2, 2) = 10, dipole 1 in cell (0, 0) = 0 -/
+def occ0 : Occ.State := Occ.init 1 [⟨0, true, 10⟩, ⟨1, true, 0⟩]
+
+theorem occsUpd {occs : List Occ.State} {cs' : List (CObj ℚ)}
+    (ho : (occAfter 2 oe (getOcc occs 0) cs').isSome = true) :
+    OccsUpdated env mw.w.labels.length occs [(occAfter 2 oe (getOcc occs 0) cs').get ho] cs' := by
+  intro l hl
+  have : l = 0 := Nat.lt_one_iff.mp hl
+  subst this
+  exact (Option.some_get ho).symm
+
+/-- the state before the start-of-run event: both dipoles at rest, the occupancy freshly initialised -/
+def g0 : G3 env mw := ⟨⟨[exC0, exC1], .leaf, [occ0]⟩, CW2.inv_rest ex_initial ex_uniform ex_rest .leaf, fun l hl => by
+  have : l = 0 := Nat.lt_one_iff.mp hl
+  subst this
+  exact consistent_init _ _ _⟩
+
+theorem start_ho : (occAfter 2 oe (getOcc g0.1.occs 0) (step Ops.rat isZ env.base.L g0.1.cs (.start 0 [0] [1, 0]))).isSome = true := by
+  decide +kernel
+
+/-- after the start-of-run event (`initial_active_identifier = 0, 0`) and the first update of the occupancy -/
+def g1 : G3 env mw :=
+  ⟨⟨step Ops.rat isZ env.base.L g0.1.cs (.start 0 [0] [1, 0]), .leaf, [(occAfter 2 oe (getOcc g0.1.occs 0) _).get start_ho]⟩,
+    inv3_start (s := g0.1) (m := .leaf) box ex_initial ex_uniform ex_rest g0.2.2 JF.C12.ModeExample.start_admW (rfl : [0].length = 1) (occsUpd start_ho)⟩
+
+/-- the state after a weakly admissible event whose kind is possible in the ghost mode, followed by the update of the occupancy -/
+def next (g : G3 env mw) (e : Composite.Ev ℚ) (m' : Composite.Mode) (hm : modeStep g.1.mode e = some m')
+    (ha : AdmW env.base.d env.base.L g.1.cs e)
+    (ho : (occAfter 2 oe (getOcc g.1.occs 0) (step Ops.rat isZ env.base.L g.1.cs e)).isSome = true) : G3 env mw :=
+  ⟨⟨step Ops.rat isZ env.base.L g.1.cs e, m', [(occAfter 2 oe (getOcc g.1.occs 0) _).get ho]⟩,
+    CW2.inv_step box g.2.1 hm ha, consAll_after (s' := ⟨_, m', _⟩) g.2.2 (occsUpd ho)⟩
+
+theorem tr_next (E : TaggerIdx) (g : G3 env mw) (e : Composite.Ev ℚ) (m' : Composite.Mode) (hm : modeStep g.1.mode e = some m')
+    (ha : AdmW env.base.d env.base.L g.1.cs e) (ho) (cm : WMode) (hk : CW2.evKind e ∈ kindsOf (mw.hmode E) cm)
+    (hp : affects (mw.w.tagger E) (.cell 0) = false →
+      StaysInRecordedCell 2 oe (getOcc g.1.occs 0) (step Ops.rat isZ env.base.L g.1.cs e)) :
+    Tr3 env mw E g (next g e m' hm ha ho) := by
+  refine ⟨⟨e, cm, hk, hm, ha, rfl⟩, occsUpd ho, fun l hl h => ?_⟩
+  have : l = 0 := Nat.lt_one_iff.mp hl
+  subst this
+  exact hp h
+
+def e2 : Composite.Ev ℚ := .keep ⟨0, 1/8⟩ [0]
+def e3 : Composite.Ev ℚ := .snap ⟨0, 1/2⟩ [0] 0 none 0 (3/4)
+def e4 : Composite.Ev ℚ := .exchange ⟨0, 5/8⟩ [0] 0 0 0 1
+def e5 : Composite.Ev ℚ := .eocLeaf ⟨0, 3/4⟩ 0 1 1 0 [0, 1]
+
+def g2 : G3 env mw := next g1 e2 .leaf rfl trivial (by decide +kernel)
+
+theorem adm3 : AdmW env.base.d env.base.L g2.1.cs e3 := by
+  intro c hc
+  have h : (sliceAt Ops.rat env.base.L ⟨0, 1/2⟩ [0] g2.1.cs)[0]? = some
+      ⟨⟨[3/4, 1/2], some [1/2, 0], some ⟨0, 1/2⟩⟩, [⟨[1/4, 1/2], some [1, 0], some ⟨0, 1/2⟩⟩, ⟨[1/4, 1/2], none, none⟩]⟩ := by
+    decide +kernel
+  rw [h] at hc
+  cases hc
+  rfl
+
+def g3 : G3 env mw := next g2 e3 .leaf rfl adm3 (by decide +kernel)
+
+theorem adm4 : AdmW env.base.d env.base.L g3.1.cs e4 :=
+  ⟨by simp, fun _ => by decide, ⟨[3/8, 1/2], some [1, 0], some ⟨0, 5/8⟩⟩, ⟨[1/4, 1/2], none, none⟩, [1, 0],
+    by decide +kernel, rfl, by decide +kernel⟩
+
+def g4 : G3 env mw := next g3 e4 .leaf rfl adm4 (by decide +kernel)
+
+theorem adm5 : AdmW env.base.d env.base.L g4.1.cs e5 :=
+  ⟨⟨⟨[13/16, 1/2], some [1/2, 0], some ⟨0, 5/8⟩⟩, [⟨[3/8, 1/2], none, none⟩, ⟨[1/4, 1/2], some [1, 0], some ⟨0, 5/8⟩⟩]⟩,
+    ⟨⟨[1/10, 1/5], none, none⟩, [⟨[3/10, 1/5], none, none⟩, ⟨[9/10, 1/5], none, none⟩]⟩,
+    ⟨[3/8, 1/2], some [1, 0], some ⟨0, 3/4⟩⟩, ⟨[3/10, 1/5], none, none⟩, [1, 0],
+    by decide +kernel, by decide +kernel, rfl, by decide +kernel, by decide +kernel, ⟨1, by simp⟩, rfl, by norm_num [nsq]⟩
+
+def g5 : G3 env mw := next g4 e5 .leaf rfl adm5 (by decide +kernel)
+
+/-- the states are what the description says: the active unit on the cell level and its recorded cell along the run, and at the end
+dipole 0 back in cell (3, 2) = 11 -/
+example : [g1, g2, g3, g4, g5].map (fun g => ((getOcc g.1.occs 0).activeId, (getOcc g.1.occs 0).activeCell))
+      = [(some 0, some 10), (some 0, some 10), (some 0, some 11), (some 0, some 11), (some 1, some 0)] ∧
+    (getOcc g5.1.occs 0).occupants 11 = [0] ∧ (getOcc g5.1.occs 0).occupants 0 = [] ∧ (getOcc g1.1.occs 0).occupants 0 = [1] := by
+  decide +kernel
+
+/-- the sampling commit is an instance of `Tr3`, premise included: at its time the centre of dipole 0 is still in its recorded cell -/
+theorem tr_sampling : Tr3 env mw 6 g1 g2 := by
+  refine tr_next 6 g1 e2 .leaf rfl trivial _ .leaf (by decide) (fun _ a hm _ => ?_)
+  have h0 : unitsOn 2 oe.level (CW2.flags (step Ops.rat isZ env.base.L g1.1.cs e2)) = [0] := by decide +kernel
+  have : a = 0 := by
+    have := h0.symm.trans hm
+    simpa using this.symm
+  subst this
+  decide +kernel
+
+theorem tr_cell_boundary : Tr3 env mw 3 g2 g3 :=
+  tr_next 3 g2 e3 .leaf rfl adm3 _ .leaf (by decide) (fun h => absurd h (by decide))
+theorem tr_harmonic : Tr3 env mw 4 g3 g4 :=
+  tr_next 4 g3 e4 .leaf rfl adm4 _ .leaf (by decide) (fun h => absurd h (by decide))
+theorem tr_end_of_chain : Tr3 env mw 7 g4 g5 :=
+  tr_next 7 g4 e5 .leaf rfl adm5 _ .leaf (by decide) (fun h => absurd h (by decide))
+
+abbrev W : World (G3 env mw) := world3 env mw
+
+def s0 : Act := ((first cfg.wires (initAct cfg.wires) 9 (fun T => W.yieldOf T g0)).get (by decide +kernel)).1
+def out0 : List (HandlerId × IdTuple) :=
+  ((first cfg.wires (initAct cfg.wires) 9 (fun T => W.yieldOf T g0)).get (by decide +kernel)).2
+def rs1 : RS (G3 env mw) := (commit cfg.wires W ⟨s0, assign (fun _ => none) out0, g0⟩ 9 g1).get (by decide +kernel)
+def rs2 : RS (G3 env mw) := (commit cfg.wires W rs1 6 g2).get (by decide +kernel)      -- sampling
+def rs3 : RS (G3 env mw) := (commit cfg.wires W rs2 3 g3).get (by decide +kernel)      -- cell boundary
+def rs4 : RS (G3 env mw) := (commit cfg.wires W rs3 4 g4).get (by decide +kernel)      -- harmonic: lifting (0, 0) → (0, 1)
+def rs5 : RS (G3 env mw) := (commit cfg.wires W rs4 7 g5).get (by decide +kernel)      -- end of chain: (1, 0) moves on
+
+theorem commit1 : commit cfg.wires W ⟨s0, assign (fun _ => none) out0, g0⟩ 9 g1 = some rs1 := by simp [rs1]
+theorem commit2 : commit cfg.wires W rs1 6 g2 = some rs2 := by simp [rs2]
+theorem commit3 : commit cfg.wires W rs2 3 g3 = some rs3 := by simp [rs3]
+theorem commit4 : commit cfg.wires W rs3 4 g4 = some rs4 := by simp [rs4]
+theorem commit5 : commit cfg.wires W rs4 7 g5 = some rs5 := by simp [rs5]
+
+theorem run1 : Run cfg W (Tr3 env mw) 9 rs1 :=
+  .start (fun _ => none) g0 g1 s0 out0 rs1
+    (Option.some_get (x := first cfg.wires (initAct cfg.wires) 9 (fun T => W.yieldOf T g0)) (by decide +kernel)).symm commit1
+theorem run2 : Run cfg W (Tr3 env mw) 9 rs2 :=
+  .step rs1 rs2 6 g2 run1 (by decide +kernel) (by decide) (JF.CW.commit_g commit1 ▸ tr_sampling) commit2
+theorem run3 : Run cfg W (Tr3 env mw) 9 rs3 :=
+  .step rs2 rs3 3 g3 run2 (by decide +kernel) (by decide) (JF.CW.commit_g commit2 ▸ tr_cell_boundary) commit3
+theorem run4 : Run cfg W (Tr3 env mw) 9 rs4 :=
+  .step rs3 rs4 4 g4 run3 (by decide +kernel) (by decide) (JF.CW.commit_g commit3 ▸ tr_harmonic) commit4
+theorem run5 : Run cfg W (Tr3 env mw) 9 rs5 :=
+  .step rs4 rs5 7 g5 run4 (by decide +kernel) (by decide) (JF.CW.commit_g commit4 ▸ tr_end_of_chain) commit5
+
+/-- the corollary applies to this run -/
+example : ∀ T, W.live T → Fresh W rs5 T :=
+  fresh_concrete3 env box mw 9 cfg_sound_dipoles_cell_bounded (by decide) supported3_dipoles_cell_bounded run5
+
+/-- … and speaks about non-empty pending lists.  Before the end of chain (`rs4`: dipole 0 active in cell (3, 2), point mass (0, 1)
+moving): the cell-bounding tagger's one pending event carries (dipole 0, dipole 1) — cell (0, 0) is not nearby (3, 2) —, the
+excluded-cells and surplus taggers are idle, the cell-boundary tagger carries `((0,),)`, `harmonic` the bond of dipole 0.  Afterwards
+(`rs5`: dipole 1 active in cell (0, 0), dipole 0 stored in cell (3, 2), not nearby): the cell-bounding tagger carries
+(dipole 1, dipole 0), the cell-boundary tagger `((1,),)`, `harmonic` the bond of dipole 1. -/
+example : (getT rs4.act 0).running.map rs4.ids = [some [[0], [1]]] ∧ (getT rs4.act 1).running = [] ∧ (getT rs4.act 2).running = [] ∧
+    (getT rs4.act 3).running.map rs4.ids = [some [[0]]] ∧ (getT rs4.act 4).running.map rs4.ids = [some [[0, 0], [0, 1]]] ∧
+    (getT rs5.act 0).running.map rs5.ids = [some [[1], [0]]] ∧ (getT rs5.act 1).running = [] ∧
+    (getT rs5.act 3).running.map rs5.ids = [some [[1]]] ∧ (getT rs5.act 4).running.map rs5.ids = [some [[1, 0], [1, 1]]] := by
+  decide +kernel
+
+/-- clause (h) instantiated at the run: before the lifting is committed (`rs3`, the committing tagger `harmonic` changes motion) the
+cell-bounding tagger is in its trash list or idle -/
+example : 0 ∈ (getW cfg.wires 4).trashes ∨ (getT rs3.act 0).running = [] :=
+  clause_h_concrete3 env box mw 9 cfg_sound_dipoles_cell_bounded (by decide) supported3_dipoles_cell_bounded
+    run3 (by decide +kernel) (by decide) (by decide) (by decide) (by decide)
+
+end Example
+
+
+/-! ## FINDING about the table: the cell-boundary event of ANOTHER internal state needs the history premise
+
+`affects (cellBoundary handler of internal state l') (.cell l) = (l' == l)`: the table claims that a cell-boundary event of one
+cell-occupancy system does not change the active cell of another one ("distinct systems track distinct tree levels").  For the concrete
+world this is false without C11's history premise for system `l`, exactly as E8 found for sampling commits: the commit time-slices the
+whole active branch, and the update of system `l` recomputes its active cell from the new position of ITS active unit.
+
+The wiring of `water/coulomb_cell_veto_lj_cell_veto.ini` (taggers 2 = `oxygen_cell_boundary` on internal state 0, 7 = `coulomb_nearby`,
+an `ExcludedCellsTagger` on internal state 1) over the two dipoles of the run above with a leaf-level and a root-level occupancy on 4 cells
+along x: point mass (0, 0) starts at x = 3/4 with speed 1, the centre of dipole 0 (x = 1/2, cell 2, speed 1/2) is the active unit of the
+root-level system; dipole 1 sits in cell 0, not nearby.  A leaf-level cell-boundary event at time 1/2 (the point mass reaches x = 1/4
+across the periodic boundary) finds the centre at x = 3/4 — cell 3, whose nearby cells include cell 0: `coulomb_nearby` yields nothing
+before and (dipole 0, dipole 1) afterwards, although the table declares the pair disjoint.  In a run the root-level cell-boundary event
+(time 1/2 as well here; earlier in general) is pending — which is the premise. -/
+
+namespace Finding
+open Example
+
+abbrev mw2 : ModeWiring := mcfg_water_coulomb_cell_veto_lj_cell_veto
+abbrev cfg2 : Wiring := cfg_water_coulomb_cell_veto_lj_cell_veto
+
+def cellX : List ℚ → Nat := fun p => (Ops.rat.toInt (p.getD 0 0 * 4)).toNat
+def oeLeaf : OccEnv ℚ := { level := 2, grid := ⟨[4, 1], 1⟩, cellOf := cellX, relevant := fun _ => true }
+def oeRoot : OccEnv ℚ := { level := 1, grid := ⟨[4, 1], 1⟩, cellOf := cellX, relevant := fun _ => true }
+def env2 : Env ℚ := { base := Example.env.base, occs := [oeLeaf, oeRoot] }
+
+/-- `initialize` of both systems: point masses (0,0) (0,1) (1,0) (1,1) ↦ 0 1 2 3 in cells 3 1 1 3; dipoles 0 1 in cells 2 0 -/
+def occL0 : Occ.State := Occ.init 1 [⟨0, true, 3⟩, ⟨1, true, 1⟩, ⟨2, true, 1⟩, ⟨3, true, 3⟩]
+def occR0 : Occ.State := Occ.init 1 [⟨0, true, 2⟩, ⟨1, true, 0⟩]
+def r0 : St3 := ⟨[exC0, exC1], .leaf, [occL0, occR0]⟩
+
+def nextOccs (s : St3) (cs' : List (CObj ℚ)) (h0 : (occAfter 2 oeLeaf (getOcc s.occs 0) cs').isSome = true)
+    (h1 : (occAfter 2 oeRoot (getOcc s.occs 1) cs').isSome = true) : List Occ.State :=
+  [(occAfter 2 oeLeaf (getOcc s.occs 0) cs').get h0, (occAfter 2 oeRoot (getOcc s.occs 1) cs').get h1]
+
+theorem occsUpd2 (s : St3) (cs' : List (CObj ℚ)) (h0) (h1) :
+    OccsUpdated env2 mw2.w.labels.length s.occs (nextOccs s cs' h0 h1) cs' := by
+  intro l hl
+  have hl' : l < 2 := hl
+  match l, hl' with
+  | 0, _ => exact (Option.some_get h0).symm
+  | 1, _ => exact (Option.some_get h1).symm
+
+def cs1 : List (CObj ℚ) := step Ops.rat isZ env2.base.L r0.cs (.start 0 [0] [1, 0])
+/-- after the start-of-run event -/
+def d0 : St3 := ⟨cs1, .leaf, nextOccs r0 cs1 (by decide +kernel) (by decide +kernel)⟩
+def eB : Composite.Ev ℚ := .snap ⟨0, 1/2⟩ [0] 0 (some 0) 0 (1/4)
+def cs2 : List (CObj ℚ) := step Ops.rat isZ env2.base.L d0.cs eB
+/-- after the leaf-level cell-boundary event -/
+def d1 : St3 := ⟨cs2, .leaf, nextOccs d0 cs2 (by decide +kernel) (by decide +kernel)⟩
+
+theorem d0_inv : Inv3 env2 mw2 d0 :=
+  inv3_start (env := env2) (mw := mw2) (s := r0) (m := .leaf) box ex_initial ex_uniform ex_rest
+    (fun l hl => by
+      have hl' : l < 2 := hl
+      match l, hl' with
+      | 0, _ => exact consistent_init _ _ _
+      | 1, _ => exact consistent_init _ _ _)
+    JF.C12.ModeExample.start_admW (rfl : [0].length = 1) (occsUpd2 r0 cs1 _ _)
+
+theorem admB : AdmW env2.base.d env2.base.L d0.cs eB := by
+  intro c hc l hl
+  have h : (sliceAt Ops.rat env2.base.L ⟨0, 1/2⟩ [0] d0.cs)[0]? = some
+      ⟨⟨[3/4, 1/2], some [1/2, 0], some ⟨0, 1/2⟩⟩, [⟨[1/4, 1/2], some [1, 0], some ⟨0, 1/2⟩⟩, ⟨[1/4, 1/2], none, none⟩]⟩ := by
+    decide +kernel
+  rw [h] at hc
+  cases hc
+  simp only [List.getElem?_cons_zero, Option.some.injEq] at hl
+  subst hl
+  rfl
+
+/-- **finding about the table**: without `StaysInRecordedCell` the entry `affects (cellBoundary of system 0) (.cell 1) = false` is wrong
+for the concrete world — a state satisfying the invariant, a leaf-level cell-boundary commit (`snap` + update of both occupancies), a
+tagger pair the tables declare disjoint (`oxygen_cell_boundary` → `coulomb_nearby`), and the yield changes -/
+theorem other_cell_boundary_needs_premise :
+    Inv3 env2 mw2 d0 ∧ TrNoPremise3 env2 mw2 2 d0 d1 ∧
+    disjointFP cfg2 (cfg2.tagger 2) (cfg2.tagger 7) = true ∧ affects (cfg2.tagger 2) (.cell 1) = false ∧
+    ¬ StaysInRecordedCell 2 oeRoot (getOcc d0.occs 1) d1.cs ∧
+    yieldCls3 env2 7 (cfg2.tagger 7).cls (cfg2.tagger 7).label d0.cs d0.occs = [] ∧
+    yieldCls3 env2 7 (cfg2.tagger 7).cls (cfg2.tagger 7).label d1.cs d1.occs = [some [[0], [1]]] ∧
+    ¬ ((yieldCls3 env2 7 (cfg2.tagger 7).cls (cfg2.tagger 7).label d1.cs d1.occs).map (CW2.viewOf (cfg2.tagger 7))).Perm
+        ((yieldCls3 env2 7 (cfg2.tagger 7).cls (cfg2.tagger 7).label d0.cs d0.occs).map (CW2.viewOf (cfg2.tagger 7))) := by
+  refine ⟨d0_inv, ⟨⟨eB, .leaf, by decide, rfl, admB, rfl⟩, occsUpd2 d0 cs2 _ _⟩, by decide, by decide, ?_, by decide +kernel,
+    by decide +kernel, fun h => absurd h.length_eq (by decide +kernel)⟩
+  intro h
+  have := h 0 (by decide +kernel) rfl
+  revert this
+  decide +kernel
+
+end Finding
+
+/-! ## the Python mirrors of `Occ.update` / `yieldCell` (`harness/fpcorr3.py`) are pinned to the Lean definitions
+
+`harness/fpcorr3.py: SELF_TEST` holds the rows of this table; the module evaluates its mirrors (`occ_update`, `yield_cell`) on them and
+compares (`fp3.self-test`).  One-dimensional grid of 7 cells, one layer, `maximum_number_occupants = 1`, root level: unit 0 becomes
+active in cell 0 — moves to cell 1 — lifting to unit 1 (unit 0 goes to the surplus of the full cell 1) — an irrelevant unit becomes
+active. -/
+
+namespace PyTable
+
+def oe7 : OccEnv ℚ := { level := 1, grid := ⟨[7], 1⟩, cellOf := fun _ => 0, relevant := fun _ => true }
+def upd (s : Occ.State) (u : Nat) (rel : Bool) (c : Nat) : Occ.State :=
+  match Occ.update s ⟨u, rel, c⟩ with
+  | .ok s' => s'
+  | .error _ => s
+def s0 : Occ.State := Occ.init 1 [⟨0, true, 0⟩, ⟨1, true, 1⟩, ⟨2, true, 4⟩]
+def s1 : Occ.State := upd s0 0 true 0
+def s2 : Occ.State := upd s1 0 true 1
+def s3 : Occ.State := upd s2 1 true 1
+def s4 : Occ.State := upd s3 3 false 5
+
+def ys (s : Occ.State) : List (List IdTuple) :=
+  [TaggerClass.cellVeto, .cellBounding, .excludedCells, .surplusCells].map fun cls => yieldCell 1 oe7 cls s
+
+theorem pyOccTable :
+    [s1, s2, s3, s4].map (fun s => (List.range 7).map s.occupants) =
+      [[[], [1], [], [], [2], [], []], [[], [1], [], [], [2], [], []], [[], [], [], [], [2], [], []], [[], [1], [], [], [2], [], []]] ∧
+    [s1, s2, s3, s4].map (·.surplus) = [[], [], [(1, [0])], [(1, [0])]] ∧
+    [s1, s2, s3, s4].map (fun s => (s.activeId, s.activeCell)) = [(some 0, some 0), (some 0, some 1), (some 1, some 1), (none, none)] ∧
+    [s1, s2, s3, s4].map ys = [
+      [[some [[0]]], [some [[0], [2]]], [some [[0], [1]]], []],
+      [[some [[0]]], [some [[0], [2]]], [some [[0], [1]]], []],
+      [[some [[1]]], [some [[1], [2]]], [], [some [[1], [0]]]],
+      [[], [], [], []]] := by decide +kernel
+
+end PyTable
 
 end JF.Footprints3
